@@ -1134,3 +1134,75 @@ func genModProgram(rng *rand.Rand, fc *fieldCase, nOps int, allowExp bool) *prog
 	}
 	return p
 }
+
+// ---------------- boundary chains ----------------
+//
+// Short programs aimed at the reduction threshold of ONE native field: an
+// all-ones witness is multiplied by 2^c-1 with c a few bits below
+// maxOverflow = nativeBits-2-w, so that the limb values are as large as the
+// tracked bound allows, then doubled / subtracted / multiplied across the
+// threshold.  A threshold that is off by one or two bits makes the limbs wrap
+// around the native field.
+func genBoundaryProgram(rng *rand.Rand, fc *fieldCase, nativeBits int) *program {
+	p := &program{fc: fc, vmodReg: -1}
+	g := &gen{p: p, rng: rng, mod: fc.mod, fc: fc, cap2: new(big.Int).Lsh(big.NewInt(1), uint(fc.mod.BitLen())), selReg: map[int]bool{}}
+	maxOf := nativeBits - 2 - int(fc.w)
+	g.maxCbl = uint(maxOf)
+	ones := new(big.Int).Sub(g.cap2, big.NewInt(1))
+	x := g.addInputERaw(ones)
+	y := g.addInputERaw(ones)
+	z := g.addInputE(g.pickValue())
+	g.addInputN(big.NewInt(int64(rng.IntN(2))))
+	allOnes := func(c int) *big.Int { return new(big.Int).Sub(new(big.Int).Lsh(big.NewInt(1), uint(c)), big.NewInt(1)) }
+	delta := rng.IntN(6)
+	var acc int
+	switch rng.IntN(3) {
+	case 0: // additions across the threshold
+		c := maxOf - delta
+		if c < 1 {
+			c = 1
+		}
+		acc = g.opMulConst(x, allOnes(c))
+	case 1: // a product whose coefficients sit at the threshold
+		nres := 2*fc.nbLimbs - 1
+		lg := 0
+		for v := nres; v > 0; v >>= 1 {
+			lg++
+		}
+		c := maxOf - int(fc.w) - lg - delta + rng.IntN(3)
+		if c < 1 {
+			c = 1
+		}
+		acc = g.opMulNR(g.opMulConst(x, allOnes(c)), y)
+	default: // subtraction padding at the threshold
+		c := maxOf - 2 - delta + rng.IntN(3)
+		if c < 1 {
+			c = 1
+		}
+		acc = g.opSub(z, g.opMulConst(x, allOnes(c)))
+	}
+	for i := 0; i < 2+rng.IntN(8); i++ {
+		switch rng.IntN(6) {
+		case 0, 1, 2:
+			acc = g.opAdd(acc, acc)
+		case 3:
+			acc = g.opSub(z, acc)
+		case 4:
+			acc = g.opSub(acc, y)
+		case 5:
+			acc = g.opMulConst(acc, big.NewInt(int64(1+rng.IntN(7))))
+		}
+	}
+	switch rng.IntN(4) {
+	case 0:
+		g.opMul("Mul", acc, y)
+	case 1:
+		g.opToBits(acc, true)
+	case 2:
+		g.opReduce(acc)
+	case 3:
+		g.opToBits(acc, false)
+	}
+	g.assert("AssertIsEqual", acc, g.addInputE(g.e(acc).val))
+	return p
+}
